@@ -958,7 +958,7 @@ def _tree(doc=None, text=None, suffix=".json", cfg=None):
 def equivalent_docs_cases(tier):
     return ["nullable-30-vs-typelist", "nullable-ref-allof", "wrapper-allof", "wrapper-oneof", "wrapper-anyof", "json-vs-yaml",
             "nullable-model-oneof", "null-enum-param-shared", "wrapper-with-default", "same-ref-twice-in-union",
-            "union-of-wrappers", "null-enum-component-shared", "nullable-enum-with-null-30-vs-31"]
+            "union-of-wrappers", "null-enum-component-shared", "nullable-enum-with-null-30-vs-31", "nullable-redeclared-in-allof"]
 
 
 def equivalent_docs(case):
@@ -1014,6 +1014,15 @@ def equivalent_docs(case):
         d1["components"]["parameters"] = {"St": p}
         d2 = doc({}, paths={"/x": {"get": {"operationId": "g", "parameters": [copy.deepcopy(p)], "responses": ok}},
                             "/y": {"get": {"operationId": "h", "parameters": [copy.deepcopy(p)], "responses": ok}}})
+    elif case == "nullable-redeclared-in-allof":
+        # a nullable property re-declared (with another description) by a composed schema: nullable: true vs an explicit null member
+        def family(prop):
+            return {"Audited": {"type": "object", "properties": {"updated_at": dict(prop, description="when it changed")}},
+                    "Invoice": {"allOf": [{"$ref": "#/components/schemas/Audited"},
+                                          {"type": "object", "properties": {"updated_at": dict(prop, description="last change of the invoice"),
+                                                                           "n": {"type": "integer"}}}]}}
+        d1 = doc({}, family({"type": "string", "nullable": True}), version="3.0.3")
+        d2 = doc({}, family({"oneOf": [{"type": "string"}, {"type": "null"}]}), version="3.0.3")
     elif case == "nullable-enum-with-null-30-vs-31":
         # an enumeration that lists null AND is declared nullable: 3.0 spelling vs 3.1 type list (both say the same thing)
         d1 = doc({"st": {"type": "string", "nullable": True, "enum": ["queued", "running", None]},
